@@ -131,7 +131,7 @@ def run_batch(prop, cfg, tier, verif_seed, nruns, workers, wall_cap, out=print):
                                 n_unlisted_seen += 1
                         if r["error"]:
                             errors.append(r)
-                if n_unlisted_seen >= 200 or len(errors) >= 5:
+                if n_unlisted_seen >= int(os.environ.get("VERIF_STOP_AFTER", "200")) or len(errors) >= 5:
                     stopped_early = True
                     for p in pending:
                         p.cancel()
